@@ -1,10 +1,6 @@
 package main
 
 import (
-	"fmt"
-	"go/token"
-	"go/types"
-	"sort"
 	"strings"
 
 	"golang.org/x/tools/go/ssa"
@@ -14,15 +10,6 @@ func init() {
 	register("T-LITFMT", "literal tokens: the 17 documented types are each formatted by a routine of the right class (bare only for the default type of its constant kind, otherwise wrapped in a conversion; strings / runes / bytes only through Go-syntax quoting), the argument is the token's content and the result reaches the writer unmodified; a float64 gets \".0\" appended exactly when its text has neither '.' nor 'e'", 20, func(c *Ctx) []Obligation { return rulePXTokenRender(c, "T-LITFMT") })
 	register("P-TOKEN", "non-literal tokens: keyword / operator / layout / delimiter tokens write their text, followed by ':' exactly for `default`; identifiers write their name; a package token writes exactly what the registration function returns for its path", 6, func(c *Ctx) []Obligation { return rulePXTokenRender(c, "P-TOKEN") })
 	register("P-LITCTOR", "literal constructors store their parameter (or the callback's result) unmodified as the token content, with the matching token type", 6, rulePXLitCtor)
-}
-
-func (c *Ctx) tokenRenderFn() *ssa.Function {
-	for _, f := range c.codeImpls(c.renderName()) {
-		if f.Synthetic == "" && f.Signature.Recv() != nil && types.TypeString(f.Signature.Recv().Type(), shortQual) == "jen.token" {
-			return f
-		}
-	}
-	return nil
 }
 
 // parseFormat splits a format string into literal segments and verbs.
@@ -65,54 +52,6 @@ type producer struct {
 	argDesc []string
 }
 
-func (a *FnA) producerOf(v ssa.Value) *producer {
-	v = stripConv(v)
-	switch x := v.(type) {
-	case *ssa.BinOp:
-		if x.Op == token.ADD {
-			if s, ok := constString(x.Y); ok {
-				p := a.producerOf(x.X)
-				if p.kind == "other" || p.suffix != "" {
-					return &producer{kind: "other"}
-				}
-				p.suffix = s
-				return p
-			}
-		}
-	case *ssa.Call:
-		sc := x.Call.StaticCallee()
-		if sc == nil {
-			break
-		}
-		n := sc.String()
-		switch {
-		case n == "fmt.Sprintf":
-			f, ok := constString(x.Call.Args[0])
-			va, ok2 := varargs(x.Call.Args[1])
-			if ok && ok2 {
-				p := &producer{kind: "sprintf", format: f, args: va, base: x, callee: n}
-				for _, ar := range va {
-					p.argDesc = append(p.argDesc, a.Desc(ar))
-				}
-				return p
-			}
-		case strings.HasPrefix(n, "strconv.QuoteRune"):
-			return &producer{kind: "quoterune", args: x.Call.Args, base: x, callee: n, argDesc: []string{a.Desc(x.Call.Args[0])}}
-		case n == "strconv.Quote" || n == "strconv.QuoteToASCII" || n == "strconv.QuoteToGraphic":
-			return &producer{kind: "quote", args: x.Call.Args, base: x, callee: n, argDesc: []string{a.Desc(x.Call.Args[0])}}
-		case a.c.CG().Sum[sc] != nil:
-			p := &producer{kind: "modulecall", args: x.Call.Args, base: x, callee: fname(sc)}
-			for _, ar := range x.Call.Args {
-				p.argDesc = append(p.argDesc, a.Desc(ar))
-			}
-			return p
-		}
-	case *ssa.TypeAssert:
-		return &producer{kind: "direct", args: []ssa.Value{x.X}, argDesc: []string{a.Desc(x.X)}}
-	}
-	return &producer{kind: "other", argDesc: []string{a.Desc(v)}}
-}
-
 var defaultTypes = map[string]bool{"bool": true, "string": true, "int": true, "float64": true, "complex128": true}
 var documentedLitTypes = []string{"bool", "string", "int", "complex128", "float64", "float32", "int8", "int16", "int32", "int64", "uint", "uint8", "uint16", "uint32", "uint64", "uintptr", "complex64"}
 
@@ -128,159 +67,6 @@ func valueVerbOK(typ, verb string) bool {
 		return verb == "v" || verb == "#v" || verb == "g"
 	}
 	return false
-}
-
-// literalFormatOK judges a Sprintf format for a literal of the given type.
-func literalFormatOK(typ, format string) (bool, string) {
-	lits, verbs := parseFormat(format)
-	switch len(verbs) {
-	case 1:
-		if lits[0] != "" || lits[1] != "" {
-			return false, "extra text around the verb"
-		}
-		if !defaultTypes[typ] {
-			return false, "a bare constant has the default type of its kind, not " + typ + ": the value must be wrapped in a conversion"
-		}
-		if !valueVerbOK(typ, verbs[0]) {
-			return false, "verb %" + verbs[0] + " does not print a Go constant of type " + typ
-		}
-		return true, "bare, default type"
-	case 2:
-		if verbs[0] != "T" || lits[0] != "" {
-			return false, "expected %T first"
-		}
-		if !valueVerbOK(typ, verbs[1]) {
-			return false, "verb %" + verbs[1] + " does not print a Go constant of type " + typ
-		}
-		if lits[1] == "(" && lits[2] == ")" {
-			return true, "conversion"
-		}
-		if lits[1] == "" && lits[2] == "" && strings.HasPrefix(typ, "complex") {
-			return true, "conversion (fmt supplies the parentheses of a complex value)"
-		}
-		return false, "text around the verbs is not TYPE(value)"
-	}
-	return false, fmt.Sprintf("%d verbs", len(verbs))
-}
-
-// contentValue: v is the token's content, unmodified: recv.content itself, the value of a
-// (guarded) type assertion on it, or a widening conversion of that to the formatter's parameter type.
-func contentValue(a *FnA, v ssa.Value) bool {
-	for depth := 0; depth < 4; depth++ {
-		d := a.Desc(v)
-		if d == "recv.content" {
-			return true
-		}
-		switch x := v.(type) {
-		case *ssa.Extract:
-			if ta, ok := x.Tuple.(*ssa.TypeAssert); ok && x.Index == 0 {
-				v = ta.X
-				continue
-			}
-		case *ssa.TypeAssert:
-			v = x.X
-			continue
-		case *ssa.Convert:
-			// only widening numeric conversions keep the value
-			from, ok1 := x.X.Type().Underlying().(*types.Basic)
-			to, ok2 := x.Type().Underlying().(*types.Basic)
-			if ok1 && ok2 && widening(from, to) {
-				v = x.X
-				continue
-			}
-		case *ssa.MakeInterface:
-			v = x.X
-			continue
-		case *ssa.ChangeType:
-			v = x.X
-			continue
-		}
-		return false
-	}
-	return false
-}
-
-func widening(from, to *types.Basic) bool {
-	size := map[types.BasicKind]int{types.Int8: 8, types.Int16: 16, types.Int32: 32, types.Int64: 64, types.Int: 63, types.Uint8: 8, types.Uint16: 16, types.Uint32: 32, types.Uint64: 64, types.Uint: 63, types.Uintptr: 63, types.Float32: 32, types.Float64: 64, types.Complex64: 64, types.Complex128: 128}
-	fs, ok1 := size[from.Kind()]
-	ts, ok2 := size[to.Kind()]
-	if !ok1 || !ok2 {
-		return false
-	}
-	fi, ti := from.Info(), to.Info()
-	switch {
-	case fi&types.IsFloat != 0 && ti&types.IsFloat != 0:
-		return ts >= fs
-	case fi&types.IsComplex != 0 && ti&types.IsComplex != 0:
-		return ts >= fs
-	case fi&types.IsInteger != 0 && ti&types.IsInteger != 0:
-		if (fi&types.IsUnsigned != 0) == (ti&types.IsUnsigned != 0) {
-			return ts >= fs
-		}
-		return fi&types.IsUnsigned != 0 && ts > fs // unsigned into a strictly wider signed type
-	}
-	return false
-}
-
-// litTemplateOK judges the normalised producer of a literal of type typ: a single value printed
-// bare (only for the default type of its constant kind) or wrapped in a conversion to typ.
-func litTemplateOK(a *FnA, typ string, segs []tseg) (ok bool, why string, bare bool) {
-	valOK := func(t tseg) (bool, string) {
-		if t.val == nil {
-			return false, "no value"
-		}
-		if !contentValue(a, t.val) {
-			return false, "the value printed is " + a.Desc(t.val) + ", not the token's content"
-		}
-		if !valueVerbOK(typ, t.verb) {
-			return false, "verb %" + t.verb + " does not print a Go constant of type " + typ
-		}
-		if t.bits != 0 {
-			want := map[string]int{"float64": 64, "float32": 32, "complex128": 128, "complex64": 64}[typ]
-			if want != 0 && t.bits != want {
-				return false, fmt.Sprintf("formatted with bit size %d, the type needs %d (digits would be dropped)", t.bits, want)
-			}
-		}
-		return true, ""
-	}
-	switch len(segs) {
-	case 1:
-		if ok, why := valOK(segs[0]); !ok {
-			return false, why, true
-		}
-		if !defaultTypes[typ] {
-			return false, "a bare constant has the default type of its kind, not " + typ + ": the value must be wrapped in a conversion", true
-		}
-		return true, "bare, default type", true
-	case 2:
-		// TYPE value  (complex: fmt supplies the parentheses)
-		if (segs[0].verb == "T" && segs[0].val != nil && contentValue(a, segs[0].val)) || (segs[0].val == nil && segs[0].lit == typ) {
-			if !strings.HasPrefix(typ, "complex") {
-				return false, "conversion without parentheses", false
-			}
-			if ok, why := valOK(segs[1]); !ok {
-				return false, why, false
-			}
-			return true, "conversion (the complex value carries its own parentheses)", false
-		}
-	case 3:
-		// "TYPE(" value ")"
-		if segs[0].val == nil && segs[0].lit == typ+"(" && segs[2].val == nil && segs[2].lit == ")" {
-			if ok, why := valOK(segs[1]); !ok {
-				return false, why, false
-			}
-			return true, "conversion", false
-		}
-	case 4:
-		// %T "(" value ")"
-		if segs[0].verb == "T" && segs[0].val != nil && contentValue(a, segs[0].val) && segs[1].lit == "(" && segs[1].val == nil && segs[3].lit == ")" && segs[3].val == nil {
-			if ok, why := valOK(segs[2]); !ok {
-				return false, why, false
-			}
-			return true, "conversion", false
-		}
-	}
-	return false, "the text is not a single Go constant of type " + typ + " (bare or TYPE(value))", false
 }
 
 // floatGuard classifies a way: does it establish that the text has no '.' and no 'e' (intLike), or
@@ -326,322 +112,4 @@ func floatGuard(w Facts, textDesc string) (intLike, notIntLike bool, unknown []s
 	}
 	intLike = noDot && noE
 	return
-}
-
-func ruleTokenRender(c *Ctx, part string) []Obligation {
-	o := c.newObs(part)
-	f := c.tokenRenderFn()
-	if f == nil {
-		o.undecided("(jen.token).render", "anchor", token.NoPos, "anchor lost")
-		return o.list
-	}
-	a := c.FA(f)
-	fn := fname(f)
-	w := c.writerParam(f)
-	litT := c.tokenTypeConst("literalToken")
-	typOf := func(w Facts) string {
-		for atom, pol := range w {
-			if pol && strings.HasPrefix(atom, `eq("`) && strings.HasSuffix(atom, `",recv.typ)`) {
-				return atom[4 : len(atom)-len(`",recv.typ)`)]
-			}
-		}
-		return ""
-	}
-	litTypeOf := func(w Facts) string {
-		for atom, pol := range w {
-			if pol && strings.HasPrefix(atom, "is<") && strings.HasSuffix(atom, ">(recv.content)") {
-				return atom[3 : len(atom)-len(">(recv.content)")]
-			}
-		}
-		return ""
-	}
-	seenLit := map[string]bool{}
-	type sinkInfo struct {
-		s    *Sink
-		typs map[string]bool
-	}
-	var firstSinkOf = map[string]*Sink{}
-	var sinks []sinkInfo
-	for _, s := range a.Sinks() {
-		if stripConv(s.Writer) != ssa.Value(w) {
-			if part == "P-TOKEN" {
-				o.add(Violated, fn, "write to something other than the writer parameter", s.Call.Pos(), true, "%s", a.Desc(s.Writer))
-			}
-			continue
-		}
-		si := sinkInfo{s: s, typs: map[string]bool{}}
-		for _, way := range a.WaysTo(s.Call.Block()) {
-			si.typs[typOf(way)] = true
-		}
-		sinks = append(sinks, si)
-	}
-	for _, si := range sinks {
-		s := si.s
-		var typs []string
-		for t := range si.typs {
-			typs = append(typs, t)
-		}
-		sort.Strings(typs)
-		if si.typs[""] {
-			if part == "P-TOKEN" {
-				o.undecided(fn, "write under an unknown token type", s.Call.Pos(), "data %s", a.DataDesc(s))
-			}
-			continue
-		}
-		if si.typs[litT] {
-			if part != "T-LITFMT" {
-				continue
-			}
-			if len(si.typs) != 1 {
-				o.undecided(fn, "literal write shared with other token types", s.Call.Pos(), "%v", typs)
-				continue
-			}
-			// resolve the written value per incoming way
-			type leaf struct {
-				v    ssa.Value
-				ways []Facts
-			}
-			var leaves []leaf
-			data := stripConv(s.Data[0])
-			if phi, ok := data.(*ssa.Phi); ok && phi.Block() == s.Call.Block() {
-				for i, e := range phi.Edges {
-					leaves = append(leaves, leaf{e, a.WaysOnEdge(phi.Block().Preds[i], phi.Block())})
-				}
-			} else {
-				leaves = append(leaves, leaf{data, a.WaysTo(s.Call.Block())})
-			}
-			for _, lf := range leaves {
-				// split off a constant suffix (the float ".0"), then normalise the producer to a template
-				base, suffix := stripConv(lf.v), ""
-				if b, ok := base.(*ssa.BinOp); ok && b.Op == token.ADD {
-					if sv, ok := constString(b.Y); ok {
-						if _, lhsConst := constString(b.X); !lhsConst {
-							base, suffix = stripConv(b.X), sv
-						}
-					}
-				}
-				segs := a.template(base)
-				for _, way := range lf.ways {
-					lt := litTypeOf(way)
-					construct := "literal of type " + lt
-					if lt == "" {
-						o.undecided(fn, "literal write with unknown content type", s.Call.Pos(), "way %s", way)
-						continue
-					}
-					ok, why, bare := litTemplateOK(a, lt, segs)
-					seenLit[construct+"%"] = true
-					o.req(ok, fn, construct+": "+fmt.Sprint(segs), s.Call.Pos(), "%s", why)
-					// float guard
-					text := a.Desc(base)
-					il, nil_, unk := floatGuard(way, text)
-					switch {
-					case lt == "float64" && bare:
-						if suffix == ".0" {
-							o.req(il && len(unk) == 0, fn, "float64: \".0\" appended only if the text has neither '.' nor 'e'", s.Call.Pos(), "way %s (unrecognised tests: %v)", way, unk)
-						} else if suffix == "" {
-							o.req(nil_ && len(unk) == 0, fn, "float64: bare text only if it has a '.' or an 'e'", s.Call.Pos(), "an integral float64 without \".0\" is read back as an int; a test other than for \".\" / \"e\" (e.g. \"e+\") lets 1e-07 through; way %s (unrecognised tests: %v)", way, unk)
-						} else {
-							o.add(Violated, fn, "float64: suffix", s.Call.Pos(), true, "unexpected suffix %q", suffix)
-						}
-					default:
-						o.req(suffix == "", fn, construct+": formatter's result written unmodified", s.Call.Pos(), "suffix %q appended", suffix)
-					}
-				}
-			}
-			continue
-		}
-		if part != "P-TOKEN" {
-			if si.typs[c.tokenTypeConst("literalRuneToken")] || si.typs[c.tokenTypeConst("literalByteToken")] {
-				// rune / byte literals
-				p := a.producerOf(s.Data[0])
-				for _, t := range typs {
-					switch t {
-					case c.tokenTypeConst("literalRuneToken"):
-						ok := (p.kind == "quoterune" && strings.HasSuffix(p.argDesc[0], "(recv.content)")) || (p.kind == "sprintf" && (p.format == "%q" || p.format == "%+q") && len(p.argDesc) == 1 && p.argDesc[0] == "recv.content")
-						o.req(ok && p.suffix == "", fn, "rune literal is quoted by strconv.QuoteRune* / %q of the content", s.Call.Pos(), "producer %s %q %v", p.callee, p.format, p.argDesc)
-					case c.tokenTypeConst("literalByteToken"):
-						lits, verbs := parseFormat(p.format)
-						ok := p.kind == "sprintf" && len(verbs) == 1 && len(p.argDesc) == 1 && p.argDesc[0] == "recv.content" && lits[0] == "byte(" && lits[1] == ")" &&
-							(valueVerbOK("uint8", verbs[0]) || verbs[0] == "q")
-						o.req(ok && p.suffix == "", fn, "byte literal is byte(<numeric or quoted value of the content>)", s.Call.Pos(), "producer %s %q %v", p.callee, p.format, p.argDesc)
-					default:
-						o.undecided(fn, "rune/byte write shared with token type "+t, s.Call.Pos(), "")
-					}
-				}
-			}
-			continue
-		}
-		// P-TOKEN part
-		p := a.producerOf(s.Data[0])
-		for _, t := range typs {
-			if firstSinkOf[t] == nil {
-				firstSinkOf[t] = s
-			}
-			switch t {
-			case c.tokenTypeConst("keywordToken"), c.tokenTypeConst("operatorToken"), c.tokenTypeConst("layoutToken"), c.tokenTypeConst("delimiterToken"):
-				if str, ok := constString(s.Data[0]); ok {
-					if str == ":" {
-						continue // judged below
-					}
-					o.add(Violated, fn, t+" token: constant write "+fmt.Sprintf("%q", str), s.Call.Pos(), true, "")
-					continue
-				}
-				ok := (p.kind == "sprintf" && (p.format == "%s" || p.format == "%v") && len(p.argDesc) == 1 && p.argDesc[0] == "recv.content") || (p.kind == "direct" && p.argDesc[0] == "recv.content")
-				o.req(ok && p.suffix == "", fn, t+" token writes its text unmodified", s.Call.Pos(), "producer %s %q %v", p.kind, p.format, p.argDesc)
-			case c.tokenTypeConst("identifierToken"):
-				ok := (p.kind == "direct" && p.argDesc[0] == "recv.content") || (p.kind == "sprintf" && (p.format == "%s" || p.format == "%v") && len(p.argDesc) == 1 && p.argDesc[0] == "recv.content")
-				o.req(ok && p.suffix == "", fn, "identifier token writes its name unmodified", s.Call.Pos(), "producer %s %q %v", p.kind, p.format, p.argDesc)
-			case c.tokenTypeConst("packageToken"):
-				reg := c.registerFn()
-				ok := p.kind == "modulecall" && p.callee == fname(reg) && len(p.args) == 2 && p.args[0] == ssa.Value(f.Params[1]) && strings.Contains(p.argDesc[1], "recv.content")
-				o.req(ok && p.suffix == "", fn, "package token writes exactly the registered name of its path", s.Call.Pos(), "producer %s %s %v", p.kind, p.callee, p.argDesc)
-			case c.tokenTypeConst("literalRuneToken"), c.tokenTypeConst("literalByteToken"):
-			default:
-				o.add(Violated, fn, "write for token type "+t, s.Call.Pos(), true, "unexpected output for this token type: %s", a.DataDesc(s))
-			}
-		}
-	}
-	if part == "T-LITFMT" {
-		// the literal type switch covers exactly the documented types
-		covered := map[string]bool{}
-		for k := range seenLit {
-			covered[strings.TrimSuffix(strings.TrimPrefix(k, "literal of type "), "%")] = true
-		}
-		for _, t := range documentedLitTypes {
-			o.req(covered[t], fn, "documented literal type "+t+" is supported", f.Pos(), "README: Lit supports bool, string, int, complex128, float64, float32, int8..int64, uint..uint64, uintptr, complex64")
-		}
-		return o.list
-	}
-	// the colon after `default`
-	kw := c.tokenTypeConst("keywordToken")
-	var colon []*Sink
-	for _, si := range sinks {
-		if str, ok := constString(si.s.Data[0]); ok && str == ":" && si.typs[kw] {
-			colon = append(colon, si.s)
-		}
-	}
-	if len(colon) != 1 || firstSinkOf[kw] == nil {
-		o.add(Violated, fn, "`default` is followed by a colon", f.Pos(), true, "expected exactly one write of \":\" in the keyword case, found %d", len(colon))
-	} else {
-		cs := colon[0]
-		cf := a.FactsOf(cs.Call)
-		defOK := false
-		var defAtom string
-		for atom, pol := range cf {
-			if pol && strings.HasPrefix(atom, `eq("default",`) && strings.Contains(atom, "recv.content") {
-				defOK = true
-				defAtom = atom
-			}
-		}
-		o.req(defOK, fn, "colon written only after the text `default`", cs.Call.Pos(), "facts %s", cf)
-		first := firstSinkOf[kw]
-		o.req(first.Call.Block().Dominates(cs.Call.Block()), fn, "colon follows the keyword text", cs.Call.Pos(), "")
-		if defOK {
-			ferr, _ := errValue(first.Call)
-			ex := []Lit{{defAtom, false}}
-			if ferr != nil {
-				l := a.nilFact(ferr)
-				l.Pol = false
-				ex = append(ex, l)
-			}
-			for _, r := range a.returns() {
-				if !reachableFrom(first.Call.Block(), nil)[r.Block()] {
-					continue
-				}
-				succ := false
-				for _, res := range r.Results {
-					if isErrorType(res.Type()) && isNilConst(res) {
-						succ = true
-					}
-				}
-				if !succ {
-					continue
-				}
-				p := a.Cut(first.Call.Block(), r, []ssa.Instruction{cs.Call}, ex)
-				o.req(p == nil, fn, "colon written whenever the text is `default`", cs.Call.Pos(), "path %s returns success for `default` without the colon (no extra condition, e.g. on the statement context, may by-pass it)", pathString(p))
-			}
-		}
-	}
-	return o.list
-}
-
-func isIdentChar(b byte) bool {
-	return b == '_' || (b >= '0' && b <= '9') || (b >= 'a' && b <= 'z') || (b >= 'A' && b <= 'Z')
-}
-
-// ruleLitCtor: Lit / LitFunc / LitRune(Func) / LitByte(Func) store the parameter / callback result.
-func ruleLitCtor(c *Ctx) []Obligation {
-	o := c.newObs("P-LITCTOR")
-	want := map[string]string{"Lit": "literalToken", "LitFunc": "literalToken", "LitRune": "literalRuneToken", "LitRuneFunc": "literalRuneToken", "LitByte": "literalByteToken", "LitByteFunc": "literalByteToken"}
-	seen := map[string]bool{}
-	for _, tl := range c.tokenLits() {
-		f := tl.fn
-		if f.Signature.Recv() == nil || types.TypeString(f.Signature.Recv().Type(), shortQual) != "*jen.Statement" {
-			continue
-		}
-		wt, ok := want[f.Name()]
-		if !ok {
-			continue
-		}
-		seen[f.Name()] = true
-		a := c.FA(f)
-		o.req(tl.typOK && tl.typ == c.tokenTypeConst(wt), fname(f), "token type", tl.pos, "typ=%q, expected %s", tl.typ, wt)
-		content := stripConv(tl.content)
-		if strings.HasSuffix(f.Name(), "Func") {
-			call, isCall := content.(*ssa.Call)
-			okc := isCall && call.Call.Value == ssa.Value(f.Params[1]) && len(call.Call.Args) == 0
-			o.req(okc, fname(f), "content is the callback's result, unmodified", tl.pos, "content = %s", a.Desc(tl.content))
-		} else {
-			o.req(content == ssa.Value(f.Params[1]), fname(f), "content is the parameter, unmodified", tl.pos, "content = %s", a.Desc(tl.content))
-		}
-	}
-	// the other hand-written token constructors: text tokens hold the caller's text, unmodified
-	type exp struct {
-		typ   string
-		param int    // index of the parameter that must be the content (-1: constant)
-		konst string // expected constant content
-	}
-	wantTok := map[string][]exp{
-		"Id":   {{"identifierToken", 1, ""}},
-		"Op":   {{"operatorToken", 1, ""}},
-		"Dot":  {{"delimiterToken", -1, "."}, {"identifierToken", 1, ""}},
-		"Line": {{"layoutToken", -1, "\n"}},
-		"Qual": {{"packageToken", 1, ""}, {"identifierToken", 2, ""}},
-	}
-	byFn := map[string][]tokenLit{}
-	for _, tl := range c.tokenLits() {
-		f := tl.fn
-		if f.Signature.Recv() == nil || types.TypeString(f.Signature.Recv().Type(), shortQual) != "*jen.Statement" {
-			continue
-		}
-		if _, ok := wantTok[f.Name()]; ok {
-			byFn[f.Name()] = append(byFn[f.Name()], tl)
-		}
-	}
-	for name, exps := range wantTok {
-		tls := byFn[name]
-		sort.Slice(tls, func(i, j int) bool { return tls[i].pos < tls[j].pos })
-		if len(tls) != len(exps) {
-			o.add(Violated, "(*jen.Statement)."+name, "builds its token(s)", token.NoPos, true, "expected %d token literal(s), found %d", len(exps), len(tls))
-			continue
-		}
-		for i, e := range exps {
-			tl := tls[i]
-			a := c.FA(tl.fn)
-			okc := tl.typOK && tl.typ == c.tokenTypeConst(e.typ)
-			if e.param >= 0 {
-				okc = okc && tl.content != nil && stripConv(tl.content) == ssa.Value(tl.fn.Params[e.param])
-			} else {
-				sv, isS := constString(tl.content)
-				okc = okc && isS && sv == e.konst
-			}
-			o.req(okc, fname(tl.fn), fmt.Sprintf("token #%d is a %s holding the caller's text unmodified", i+1, e.typ), tl.pos, "typ=%q content=%s", tl.typ, a.Desc(tl.content))
-		}
-	}
-	for n := range want {
-		if !seen[n] {
-			o.add(Violated, "(*jen.Statement)."+n, "literal constructor present", token.NoPos, true, "constructor not found or it builds no token literal")
-		}
-	}
-	return o.list
 }
